@@ -700,7 +700,20 @@ class _SubtypeDistanceVisitor(TypeVisitor[int | None]):
     def visit_any_type(self, supertype: AnyType) -> int:
         return self.any_distance
 
-    def visit_none_type(self, supertype: NoneType) -> None:
+    def _distance_to_union_members(self, supertype: ProperType) -> int | None:
+        """The minimum distance from the supertype to any member of a union subtype."""
+        assert isinstance(self.subtype, UnionType)
+        distances = [self.graph.subtype_distance(supertype, elem) for elem in self.subtype.items]
+        valid_distances = [dist for dist in distances if dist is not None]
+        if valid_distances:
+            return min(valid_distances)
+        return None
+
+    def visit_none_type(self, supertype: NoneType) -> int | None:
+        if isinstance(self.subtype, NoneType):
+            return 0
+        if isinstance(self.subtype, UnionType):
+            return self._distance_to_union_members(supertype)
         return None
 
     def visit_instance(self, supertype: Instance) -> int | None:
@@ -719,23 +732,21 @@ class _SubtypeDistanceVisitor(TypeVisitor[int | None]):
             The distance between the two types or None if they are not connected.
         """
         if isinstance(self.subtype, Instance):
+            class_distance = self.graph.get_shortest_path_length(supertype.type, self.subtype.type)
+            if class_distance is None:
+                # The classes are unrelated, whatever their type arguments are.
+                return None
             if supertype.args and self.subtype.args:
                 distances = list(
                     map(self.graph.subtype_distance, supertype.args, self.subtype.args)
                 )
                 if any(dist is None for dist in distances):
                     return None
-                return sum(distances)  # type: ignore[arg-type]
-            return self.graph.get_shortest_path_length(supertype.type, self.subtype.type)
+                return class_distance + sum(distances)  # type: ignore[arg-type]
+            return class_distance
 
         if isinstance(self.subtype, UnionType):
-            distances = [
-                self.graph.subtype_distance(supertype, elem) for elem in self.subtype.items
-            ]
-            valid_distances = [dist for dist in distances if dist is not None]
-            if valid_distances:
-                return min(valid_distances)
-            return None
+            return self._distance_to_union_members(supertype)
 
         if isinstance(self.subtype, AnyType):
             return self.any_distance
@@ -759,6 +770,9 @@ class _SubtypeDistanceVisitor(TypeVisitor[int | None]):
             if any(dist is None for dist in distances):
                 return None
             return sum(distances)  # type: ignore[arg-type]
+
+        if isinstance(self.subtype, UnionType):
+            return self._distance_to_union_members(supertype)
 
         return None
 
